@@ -36,7 +36,10 @@ type Batch struct {
 
 type WOp struct {
 	SleepUs int64 `json:"sleep_us"`
-	B       Batch `json:"b"`
+	// Lead > 0 (C07): issue the request Lead scheduling-step lengths before the
+	// next periodic WAL maintenance tick instead of after a fixed sleep.
+	Lead int   `json:"lead,omitempty"`
+	B    Batch `json:"b"`
 }
 
 func mix64(a int64, s string) uint64 {
